@@ -43,3 +43,11 @@ native_unit("serde_native", "winter-utils", "utils/core", "native/serde_bounded.
             ["Serializable / Deserializable for usize (vint64), u8..u128, (), Option<T>, [T; C], Vec<T>, String, BTreeMap<K, V>, BTreeSet<T>, tuples of 1..6", "ByteReader::read_many / read_string / read_usize", "ReadAdapter and SliceReader as byte sources"],
             "decode(encode(x)) == x, exactly the written bytes are consumed (a sentinel byte behind them is still there), re-encoding reproduces the bytes, and every strict prefix of the encoding is refused without a panic - with SliceReader, ReadAdapter over chunked readers and ReadAdapter over std::io::Cursor",
             "NATIVE EXECUTION, not a proof: value lists in the file (both ends of every vint64 length class; containers of 0, 1, 2, 127..129, 255..257, 300 elements; multi-byte UTF-8 strings; nested containers; 1..6-tuples); reader chunk sizes 1, 2, 3, 7, 255, 256, 257")
+
+
+verus_unit("serdev", "serdev", ["C12", "C06"], [
+    "ByteReader::read_many (every count and element type: returns exactly what `count` successive element decodings return and consumes exactly their bytes; Err exactly when one of them fails; the pre-allocation request never exceeds 4096 elements whatever the untrusted count is)",
+    "ByteWriter::write_many (appends the concatenation of the element encodings, in order)",
+    "<Vec<T> as Serializable>::write_into (length prefix, then the elements)",
+    "<Vec<T> as Deserializable>::read_from (a length, then that many elements)",
+    "theorem_vec_roundtrip (specification level: decoding what write_into appended returns the same vector and leaves exactly the following bytes, for every vector length - relative to the element-level and vint64 round trips, which are hypotheses here and Kani contracts of C12 for the concrete types)"])
